@@ -7,18 +7,18 @@ use crate::mapsut::*;
 use crate::report::{outcome_report, Config, ConfigReport, Tier};
 use serde_json::Value;
 
-pub struct FaultCfg<K: KeyT, V: ValT> {
+pub struct FaultCfg<H: faults::FaultHarness> {
     pub label: String,
-    pub h_search: MapHarness<K, V>,
-    pub h_full: MapHarness<K, V>,
-    pub seeds: Vec<Vec<MapOp>>,
+    pub h_search: H,
+    pub h_full: H,
+    pub seeds: Vec<Vec<H::Op>>,
     pub limits: Limits,
     pub max_states: usize,
     pub wall_cap: f64,
     pub need_inplace: bool,
 }
 
-impl<K: KeyT, V: ValT> Config for FaultCfg<K, V> {
+impl<H: faults::FaultHarness + Send> Config for FaultCfg<H> {
     fn label(&self) -> String {
         self.label.clone()
     }
@@ -69,7 +69,7 @@ pub fn mk<K: KeyT, V: ValT>(plan: Plan, universe: u8, seeds: Vec<Vec<MapOp>>, de
     cs.alphabet = Alphabet::core();
     let label = format!("{}-{}{}", c.label(), K::NAME, tag);
     let quick = tier == Tier::Quick;
-    Box::new(FaultCfg::<K, V> {
+    Box::new(FaultCfg::<MapHarness<K, V>> {
         label,
         h_search: MapHarness::new(cs),
         h_full: MapHarness::new(c),
@@ -81,10 +81,50 @@ pub fn mk<K: KeyT, V: ValT>(plan: Plan, universe: u8, seeds: Vec<Vec<MapOp>>, de
     })
 }
 
+/// HashTable: the caller's hasher / equality / entry closures and the elements' Clone / Drop panic
+pub fn mk_table(plan: Plan, universe: u8, max_len: usize, seeds: Vec<Vec<crate::tablesut::TabOp>>, depth: Option<u32>, tier: Tier, tag: &str) -> Box<dyn Config> {
+    use crate::tablesut::*;
+    let mut c = TabCfg::new(plan, universe);
+    c.max_len = max_len;
+    c.max_dup = 1;
+    c.max_buckets = if super::width() == 16 { 64 } else { 32 };
+    c.full_alphabet = true;
+    let mut cs = c.clone();
+    cs.full_alphabet = false;
+    let label = format!("{}-faults{}", c.label(), tag);
+    let quick = tier == Tier::Quick;
+    Box::new(FaultCfg::<TabHarness> {
+        label,
+        h_search: TabHarness::new(cs),
+        h_full: TabHarness::new(c),
+        seeds,
+        limits: Limits { max_depth: depth, max_wall_s: if quick { 20.0 } else { 600.0 }, ..Default::default() },
+        max_states: if quick { 8_000 } else { 200_000 },
+        wall_cap: if quick { 25.0 } else { 1500.0 },
+        need_inplace: false,
+    })
+}
+
 pub fn configs(tier: Tier) -> Vec<Box<dyn Config>> {
     let sse2 = super::width() == 16;
     let mut v: Vec<Box<dyn Config>> = Vec::new();
     let quick = tier == Tier::Quick;
+    // faults in every callback of the in-place rehashes of the layout grammar (several homes and tags, displaced elements)
+    v.push(Box::new(super::rehash::RehashFaults { tier }));
+    // HashTable: closed space, and scripted full / tombstone-saturated tables (in-place rehash on the next insertion)
+    v.push(mk_table(Plan::Zero, if quick { 5 } else { 7 }, if quick { 6 } else { 9 }, vec![vec![]], None, tier, ""));
+    {
+        use crate::tablesut::TabOp;
+        let (gw, fill) = if sse2 { (16u8, 28u8) } else { (8u8, 14u8) };
+        let ins = |n: u8| (0..n).map(TabOp::InsertUnique).collect::<Vec<_>>();
+        let mut seeds = vec![ins(gw + 1)];
+        for removed in [fill / 2, fill - 8] {
+            let mut h = ins(fill);
+            h.extend((0..removed).map(TabOp::Remove));
+            seeds.push(h);
+        }
+        v.push(mk_table(Plan::Zero, fill + 2, fill as usize + 1, seeds, Some(0), tier, "-seeded"));
+    }
     // element type without drop glue whose Clone is user code (clone / clone_from paths that are gated on drop glue)
     v.push(mk::<CKey, CVal>(Plan::Zero, if quick { 6 } else { 9 }, vec![vec![]], None, tier, false, ""));
     if sse2 {
